@@ -70,8 +70,9 @@ fn replay(kind: &str, vecs: &str, out: &str, threads: usize) -> anyhow::Result<(
         .collect::<Result<_, _>>()?;
     let n = lines.len();
     let chunk = n.div_ceil(threads.max(1)).max(1);
+    // trace events are streamed to one part file per thread (thorough runs produce gigabytes)
     #[allow(clippy::type_complexity)]
-    let results: Vec<(Vec<Value>, std::collections::BTreeMap<String, usize>, usize, usize, Vec<Value>)> =
+    let results: Vec<(Vec<Value>, std::collections::BTreeMap<String, usize>, usize, usize, usize)> =
         std::thread::scope(|s| {
             let hs: Vec<_> = lines
                 .chunks(chunk)
@@ -82,7 +83,8 @@ fn replay(kind: &str, vecs: &str, out: &str, threads: usize) -> anyhow::Result<(
                         let mut tags = std::collections::BTreeMap::new();
                         let mut evals = 0usize;
                         let mut nontrivial = 0usize;
-                        let mut trace = Vec::new();
+                        let mut nev = 0usize;
+                        let mut tw = std::io::BufWriter::new(std::fs::File::create(format!("{out}.trace.part{ci}")).expect("trace part file"));
                         for (i, l) in ch.iter().enumerate() {
                             let idx = ci * chunk + i;
                             let v: Value = match serde_json::from_str(l) {
@@ -101,7 +103,11 @@ fn replay(kind: &str, vecs: &str, out: &str, threads: usize) -> anyhow::Result<(
                                 }
                             };
                             evals += o.evals;
-                            trace.extend(o.trace);
+                            for mut x in o.trace {
+                                denull(&mut x);
+                                writeln!(tw, "{x}").expect("write trace");
+                                nev += 1;
+                            }
                             if !o.tags.is_empty() {
                                 nontrivial += 1;
                             }
@@ -112,7 +118,8 @@ fn replay(kind: &str, vecs: &str, out: &str, threads: usize) -> anyhow::Result<(
                                 mism.push(json!({"case": idx, "kind": kind, "vec": v, "mismatch": m}));
                             }
                         }
-                        (mism, tags, evals, nontrivial, trace)
+                        tw.flush().expect("flush trace");
+                        (mism, tags, evals, nontrivial, nev)
                     })
                 })
                 .collect();
@@ -125,12 +132,13 @@ fn replay(kind: &str, vecs: &str, out: &str, threads: usize) -> anyhow::Result<(
     let mut nm = 0;
     let mut tw = std::io::BufWriter::new(std::fs::File::create(format!("{out}.trace"))?);
     let mut nev = 0usize;
-    for (m, t, e, nt, tr) in results {
-        for mut x in tr {
-            denull(&mut x);
-            writeln!(tw, "{x}")?;
-            nev += 1;
+    for (ci, (m, t, e, nt, n_ev)) in results.into_iter().enumerate() {
+        let part = format!("{out}.trace.part{ci}");
+        if let Ok(mut f) = std::fs::File::open(&part) {
+            std::io::copy(&mut f, &mut tw)?;
         }
+        let _ = std::fs::remove_file(&part);
+        nev += n_ev;
         for x in m {
             writeln!(w, "{x}")?;
             nm += 1;
